@@ -402,36 +402,57 @@ pub fn run_program(b: &Value, id: u64) -> RunOut {
             log.lock().unwrap().push(json!({"ev": "Overshoot", "count": max_count, "cap": cfg.cap, "threads": n,
                 "wlog": 384, "exact": true}));
         }
-        let mut w = World::adopt(cfg.clone(), AnyCache::S(cache), clock.clone(), base);
-        let mut ev = json!({"ev": "Sync", "now": w.now()});
-        ev["snap"] = w.snapshot();
-        ev["mx"] = json!([]);
-        let items = w.exec(&json!({"op": "Iter"}))["items"].clone();
-        log.lock().unwrap().push(ev);
-        log.lock().unwrap().push(json!({"ev": "Final", "items": items}));
-        // the refill of C03: invalidate everything, then max_capacity fresh unit-weight entries
-        let want = if cfg.cap < 0 { cfg.nkeys as i64 } else { cfg.cap.min(cfg.nkeys as i64) };
-        for k in 1..=cfg.nkeys {
-            w.exec(&json!({"op": "Invalidate", "k": k}));
-        }
-        w.exec(&json!({"op": "Sync"}));
-        w.exec(&json!({"op": "Advance", "d": 3}));
-        let mut kept = 0;
-        for k in 1..=want {
-            w.exec(&json!({"op": "Insert", "k": k, "v": 900 + k, "w": 1}));
-            w.exec(&json!({"op": "Sync"}));
-        }
-        for k in 1..=want {
-            if w.exec(&json!({"op": "Get", "k": k}))["r"] == json!(900 + k) {
-                kept += 1;
+        // the epilogue runs library code as well: a panic in it is an event, not the end of the harness
+        let epi = std::panic::catch_unwind(std::panic::AssertUnwindSafe(|| {
+            let mut w = World::adopt(cfg.clone(), AnyCache::S(cache), clock.clone(), base);
+            let mut ev = json!({"ev": "Sync", "now": w.now()});
+            ev["snap"] = w.snapshot();
+            ev["mx"] = json!([]);
+            let items = w.exec(&json!({"op": "Iter"}))["items"].clone();
+            log.lock().unwrap().push(ev);
+            log.lock().unwrap().push(json!({"ev": "Final", "items": items.clone()}));
+            // the probe of C03 (b): the smallest key that is not resident, weighing exactly the room
+            // that the values held leave, must get in and displace nobody
+            {
+                let res = ev_res(&w.snapshot());
+                let held: i64 = res.iter().map(|r| r.1).sum();
+                let room = if cfg.cap < 0 { 1 } else { cfg.cap - held };
+                let free = (1..=cfg.nkeys as i64).find(|k| !res.iter().any(|r| r.0 == *k));
+                if let (Some(k), true) = (free, room >= 1) {
+                    let wgt = if cfg.weigher { room } else { 1 };
+                    w.exec(&json!({"op": "Insert", "k": k, "v": 800 + k, "w": wgt}));
+                    w.exec(&json!({"op": "Sync"}));
+                    let after = w.exec(&json!({"op": "Iter"}))["items"].clone();
+                    log.lock().unwrap().push(json!({"ev": "Probe", "k": k, "v": 800 + k, "w": wgt, "before": items, "after": after}));
+                }
             }
+            // the refill of C03: invalidate everything, then max_capacity fresh unit-weight entries
+            let want = if cfg.cap < 0 { cfg.nkeys as i64 } else { cfg.cap.min(cfg.nkeys as i64) };
+            for k in 1..=cfg.nkeys {
+                w.exec(&json!({"op": "Invalidate", "k": k}));
+            }
+            w.exec(&json!({"op": "Sync"}));
+            w.exec(&json!({"op": "Advance", "d": 3}));
+            let mut kept = 0;
+            for k in 1..=want {
+                w.exec(&json!({"op": "Insert", "k": k, "v": 900 + k, "w": 1}));
+                w.exec(&json!({"op": "Sync"}));
+            }
+            for k in 1..=want {
+                if w.exec(&json!({"op": "Get", "k": k}))["r"] == json!(900 + k) {
+                    kept += 1;
+                }
+            }
+            log.lock().unwrap().push(json!({"ev": "Refill", "want": want, "kept": kept}));
+            drop(w);
+            use std::sync::atomic::Ordering::SeqCst;
+            log.lock().unwrap().push(json!({"ev": "End", "lk": LIVE_KEYS.load(SeqCst), "lv": LIVE_VALS.load(SeqCst),
+                "dd": DOUBLE_DROPS.load(SeqCst), "km": KEYS_MADE.load(SeqCst), "kd": KEYS_DROPPED.load(SeqCst),
+                "vm": VALS_MADE.load(SeqCst), "vd": VALS_DROPPED.load(SeqCst)}));
+        }));
+        if epi.is_err() {
+            log.lock().unwrap().push(json!({"ev": "Panic", "msg": crate::last_panic(), "during": "epilogue"}));
         }
-        log.lock().unwrap().push(json!({"ev": "Refill", "want": want, "kept": kept}));
-        drop(w);
-        use std::sync::atomic::Ordering::SeqCst;
-        log.lock().unwrap().push(json!({"ev": "End", "lk": LIVE_KEYS.load(SeqCst), "lv": LIVE_VALS.load(SeqCst),
-            "dd": DOUBLE_DROPS.load(SeqCst), "km": KEYS_MADE.load(SeqCst), "kd": KEYS_DROPPED.load(SeqCst),
-            "vm": VALS_MADE.load(SeqCst), "vd": VALS_DROPPED.load(SeqCst)}));
     }
     let events = std::mem::take(&mut *log.lock().unwrap());
     RunOut {
@@ -441,6 +462,14 @@ pub fn run_program(b: &Value, id: u64) -> RunOut {
         hang,
         steps,
     }
+}
+
+/// (key, weight of the value held) of every resident of a snapshot
+fn ev_res(snap: &Value) -> Vec<(i64, i64)> {
+    snap["res"]
+        .as_array()
+        .map(|a| a.iter().map(|r| (r["k"].as_i64().unwrap_or(0), r["tw"].as_i64().unwrap_or(0))).collect())
+        .unwrap_or_default()
 }
 
 pub fn cmd_sched(args: &[String]) {
